@@ -100,7 +100,9 @@ func c01Scenario(c *Ctx) {
 			for _, tx := range blk.Txs {
 				only = append(only, wireCopyTx(tx))
 			}
+			f2.GasLimitOverride = blk.GasLimit() // the header gas limit is the miner's choice: the twin makes the same one
 			tw, twInvalid, err := f2.Mine(r.Deputy, parent2, blk.Time(), only, "")
+			f2.GasLimitOverride = 0
 			if err != nil {
 				c.Fail("C01/twin/mine-error", "twin miner failed on the packaged transactions of block %d: %v", blk.Height(), err)
 				return false
@@ -153,7 +155,9 @@ func c01Scenario(c *Ctx) {
 						sub = append(sub, wireCopyTx(tx))
 					}
 				}
+				f.GasLimitOverride = blk.GasLimit()
 				a, _, err := f.Mine(r.Deputy, r.Parent, blk.Time(), sub, "alt")
+				f.GasLimitOverride = 0
 				if err == nil && a.Hash() != blk.Hash() {
 					alt = a
 					alts++
